@@ -19,12 +19,17 @@ with_demo=$(go test -vet=off -count=1 -run 'SeedDemo' $dpkg 2>&1 | grep -E "^(ok
 git apply -R $out/patch.diff
 without_demo=$(go test -vet=off -count=1 -run 'SeedDemo' $dpkg 2>&1 | grep -E "^(ok|FAIL)" | head -1)
 git apply $out/patch.diff
-# run the check against the scratch worktree (which has the change applied); the patch must
-# also apply cleanly to /repo's HEAD. Evidence goes to a scratch directory.
+# the patch must apply cleanly to /repo's HEAD. Evidence goes to a scratch directory.
 (cd /repo && git apply --check $out/patch.diff) || { echo "patch does not apply to /repo"; exit 2; }
+# The check runs against a fresh worktree of /repo's current HEAD with the patch applied (not against
+# the agent's scratch tree, whose base may predate repairs: its own defects would count as detections).
 scratch=$(mktemp -d /tmp/seedout-XXXX)
-cd /verif && ./check $id --tier quick --repo $wt --out $scratch > $out/check_output.txt 2>&1; code=$?
+fresh=$(mktemp -d /tmp/seedwt-XXXX); rmdir $fresh
+git -C /repo worktree add -q --detach $fresh HEAD || exit 2
+(cd $fresh && git apply $out/patch.diff) || { git -C /repo worktree remove --force $fresh; exit 2; }
+cd /verif && ./check $id --tier quick --repo $fresh --out $scratch > $out/check_output.txt 2>&1; code=$?
 rm -rf $scratch
+git -C /repo worktree remove --force $fresh
 python3 - "$id" "$name" "$code" "$with_existing" "$with_demo" "$without_demo" <<'PY'
 import json,sys
 id,name,code,we,wd,wod=sys.argv[1:7]
